@@ -42,7 +42,7 @@ def const_of(v):
 
 
 class Obligation:
-    __slots__ = ("kind", "ctx", "body", "bb", "loc", "detail", "proven", "region", "residual", "key")
+    __slots__ = ("kind", "ctx", "body", "bb", "loc", "detail", "proven", "region", "residual", "key", "states", "value")
 
     def __init__(self, kind, ctx, body, bb, loc, detail, proven, region, residual=""):
         self.kind = kind
@@ -55,6 +55,8 @@ class Obligation:
         self.region = region
         self.residual = residual
         self.key = "%s %s %s" % (kind, body, detail)
+        self.states = []   # path conditions of the states in which it could not be discharged
+        self.value = None
 
 
 class Event:
@@ -104,6 +106,9 @@ class Engine:
         self.loop_cache = {}
         self.loop_stack = []
         self.body_sets = []
+        self.loop_backs = {}
+        self.loop_heads = {}
+        self.mem_writes = []
         self.links = set()     # pairs of symbols that were compared / derived from one another (relevance only)
         self.thread_entries = {}
         self.frame_bodies = {}
@@ -217,6 +222,8 @@ class Engine:
     def lazy_init(self, root, path, ti):
         """deterministic unknown value for an unwritten place"""
         prog = self.prog
+        if ti is None:
+            ti = self.static_type(root, path)
         if path and path[-1] == "$len":
             return I(lin.var(self.named(("len", root, path[:-1]), (0, ISIZE_MAX))))
         if path and path[-1] == "$discr":
@@ -323,7 +330,14 @@ class Engine:
             st.reads.add((root, path))
         return out
 
+    def note_mem_write(self, st, root, path, v, node):
+        if self.record and node is not None and root[0] == "P" and v is not None and v[0] == "i" and "E" not in path:
+            old = self.read(st, root, path, self.static_type(root, path))
+            if len(self.mem_writes) < 5000:
+                self.mem_writes.append((node, root, path, old, v, st.ctx.copy()))
+
     def write(self, st, root, path, v, node=None):
+        self.note_mem_write(st, root, path, v, node)
         d = st.store.get(root)
         if d is None:
             d = st.store[root] = {}
@@ -337,6 +351,8 @@ class Engine:
             self.writes_log.append((node, root, path, v))
 
     def write_subtree(self, st, root, path, sub, node=None):
+        if root[0] == "P" and len(sub) == 1 and () in sub:
+            self.note_mem_write(st, root, path, sub[()], node)
         d = st.store.get(root)
         if d is None:
             d = st.store[root] = {}
@@ -784,17 +800,20 @@ class Engine:
     # ------------------------------------------------------------------ obligations
     def oblige(self, st, fr, bb, kind, detail, proven, residual=""):
         if not self.record:
-            return
+            return None
         key = (fr.id, bb, kind, detail)
         o = self.obligations.get(key)
         if o is None:
-            self.obligations[key] = Obligation(kind, fr.id, fr.body.path, bb, fr.body.loc(bb), detail, proven,
-                                               fr.region, residual)
+            o = self.obligations[key] = Obligation(kind, fr.id, fr.body.path, bb, fr.body.loc(bb), detail, proven,
+                                                   fr.region, residual)
         else:
             if not proven:
                 o.proven = False
                 if residual:
                     o.residual = residual
+        if not proven and len(o.states) < 16:
+            o.states.append(st.ctx.copy())
+        return o
 
     def require(self, st, fr, bb, kind, detail, cons):
         """obligation: every constraint in cons (e<=0) is entailed; assume them afterwards"""
@@ -978,6 +997,8 @@ class Engine:
                     self.edges.add(((fr.id, prev), (fr.id, bb), "flow"))
             for (nb, ns) in self.exec_block(fr, bb, st):
                 if nb == "return":
+                    if self.record:
+                        self.edges.add(((fr.id, bb), (fr.id, "ret"), "flow"))
                     exits.append(("return", ns, bb))
                 else:
                     push(nb, ns, bb)
@@ -1049,9 +1070,22 @@ class Engine:
             return r == (0, 1)
         return False
 
+    def is_flag_symbol(self, s):
+        """symbol standing for a compiler-generated bool local (drop flag): merged flags or their loop-head copies"""
+        n = self.sym_names[s]
+        if isinstance(n, str):
+            return n.startswith("flag#")
+        if isinstance(n, tuple) and n and n[0] in ("phi",) and len(n) == 5:
+            root, k = n[3], n[4]
+            if k == () and root[0] == "L" and isinstance(root[2], int):
+                body = self.frame_bodies.get(root[1])
+                if body is not None and root[2] < len(body.locals):
+                    return self.prog.types[body.local_ty(root[2])]["k"] == "bool" and body.user_name(root[2]) is None
+        return False
+
     def flag_only(self, c):
         for s, _ in c[1]:
-            if self.ranges.get(s) != (0, 1):
+            if not self.is_flag_symbol(s):
                 return False
         return True
 
@@ -1227,6 +1261,9 @@ class Engine:
             exits, backs = self.exec_blocks(fr, h, final, L, h)
         finally:
             self.loop_stack.pop()
+        if self.record:
+            self.loop_backs.setdefault((fr.id, h), []).extend(backs)
+            self.loop_heads[(fr.id, h)] = head_state
         return exits
 
     def subtree_differs(self, a, b, root, path):
@@ -1292,12 +1329,40 @@ class Engine:
                     # references re-pointed inside a loop: keep if never changes target, else unknown
                     d[k] = ("r", ("P", ("phi", fr.id, h, root, k)), (), old[3])
                 else:
+                    sti = self.static_type(root, k) if old is None else None
                     if k and k[-1] in ("$len", "$discr"):
                         s = self.named(("phi", fr.id, h, root, k), (0, ISIZE_MAX) if k[-1] == "$len" else (0, 1 << 16))
                         d[k] = I(lin.var(s))
+                    elif sti is not None and self.prog.types[sti]["k"] in ("int", "bool", "char"):
+                        s = self.named(("phi", fr.id, h, root, k), self.type_range(sti))
+                        lz = self.lazy_init(root, k, sti)
+                        if lz[0] == "i":
+                            self.link(lin.var(s), lz[1])
+                        d[k] = I(lin.var(s))
                     else:
                         d[k] = T(("phi", fr.id, h, root, k))
+        # assume the candidates; among constant bounds of one place only the tightest (the others follow)
+        best = {}
+        rest = []
         for c in cands:
+            _, a, b, k = c
+            if a is not None and b is None:
+                key = ("ub", a)
+                if key not in best or k < best[key][3]:
+                    best[key] = c
+            elif a is None and b is not None:
+                key = ("lb", b)
+                if key not in best or k < best[key][3]:
+                    best[key] = c
+            else:
+                rest.append(c)
+        pair_best = {}
+        for c in rest:
+            _, a, b, k = c
+            key = (a, b)
+            if key not in pair_best or k < pair_best[key][3]:
+                pair_best[key] = c
+        for c in list(best.values()) + list(pair_best.values()):
             self.assume_cand(S, c)
         return S, symmap
 
@@ -1323,9 +1388,16 @@ class Engine:
         for (root, path) in sorted(M, key=repr):
             d = st_in.store.get(root, {})
             n = len(path)
+            found = False
             for k, v in d.items():
-                if len(k) >= n and k[:n] == path and v[0] in ("i", "b"):
-                    ints_M.append((root, k))
+                if len(k) >= n and k[:n] == path:
+                    found = True
+                    if v[0] in ("i", "b"):
+                        ints_M.append((root, k))
+            if not found and "E" not in path:
+                sti = self.static_type(root, path)
+                if (sti is not None and self.prog.types[sti]["k"] in ("int", "bool", "char")) or (path and path[-1] == "$len"):
+                    ints_M.append((root, path))
         Y = []
         for (root, path) in sorted(reads, key=repr):
             if "E" in path:
